@@ -53,9 +53,24 @@ pub fn set_case() -> impl Strategy<Value = SetCase> {
         perm,
         edits: vec![],
     });
-    let rot = (proptest::collection::vec((0.0f32..60.0, 0.0f32..60.0, 2.0f32..40.0, 2.0f32..40.0, prop_oneof![1 => Just(None), 4 => (-3.2f32..3.2).prop_map(Some)]), 1..=8), -1000.0f32..1000.0, perm_strategy()).prop_map(|(v, off, perm)| SetCase {
+    let rot = (proptest::collection::vec((0.0f32..60.0, 0.0f32..60.0, 2.0f32..40.0, 2.0f32..40.0, prop_oneof![1 => Just(None), 4 => (-3.2f32..3.2).prop_map(Some)]), 1..=8), -1000.0f32..1000.0, perm_strategy(),
+        // orientation shared by the whole set (a lane of parallel objects), also quarter turns in
+        // either direction, exact or a hair off, mixed with unrotated boxes
+        prop_oneof![
+            6 => Just((None, false)),
+            2 => (-3.2f32..3.2).prop_map(|a| (Some(a), false)),
+            2 => ((-4i32..=4), any::<bool>()).prop_map(|(k, mix)| (Some((k as f64 * std::f64::consts::FRAC_PI_2) as f32), mix)),
+            1 => ((-4i32..=4), prop_oneof![Just(3e-6f32), Just(-3e-6f32)], any::<bool>()).prop_map(|(k, e, mix)| (Some((k as f64 * std::f64::consts::FRAC_PI_2) as f32 + e), mix)),
+        ]).prop_map(|(v, off, perm, (common, mix))| SetCase {
         kind: SetKind::Rotated,
-        boxes: v.iter().map(|&(x, y, w, h, a)| UB::new(x + off, y - off, a, w / h, h)).collect(),
+        boxes: v.iter().enumerate().map(|(i, &(x, y, w, h, a))| {
+            let a = match common {
+                Some(_) if mix && i % 2 == 1 => None,
+                Some(ca) => Some(ca),
+                None => a,
+            };
+            UB::new(x + off, y - off, a, w / h, h)
+        }).collect(),
         grid: vec![],
         perm,
         edits: vec![],
